@@ -61,15 +61,15 @@ NatCmp(x, y) == IF x = y THEN "Equal" ELSE IF x < y THEN "Less" ELSE "Greater"
 ImplCmp(a, b) ==
   CASE NatCmp(a, b) = "Equal"   -> "EQ"
     [] NatCmp(a, b) = "Less"    ->
-         LET sub == b - a IN
-         CASE NatCmp(sub, H) = "Less"    -> "LT"
-           [] NatCmp(sub, H) = "Greater" -> "GT"
-           [] NatCmp(sub, H) = "Equal"   -> "UNDEF"
+         LET sub1 == b - a IN
+         (CASE NatCmp(sub1, H) = "Less"    -> "LT"
+            [] NatCmp(sub1, H) = "Greater" -> "GT"
+            [] NatCmp(sub1, H) = "Equal"   -> "UNDEF")
     [] NatCmp(a, b) = "Greater" ->
-         LET sub == a - b IN
-         CASE NatCmp(sub, H) = "Less"    -> "GT"
-           [] NatCmp(sub, H) = "Greater" -> "LT"
-           [] NatCmp(sub, H) = "Equal"   -> "UNDEF"
+         LET sub2 == a - b IN
+         (CASE NatCmp(sub2, H) = "Less"    -> "GT"
+            [] NatCmp(sub2, H) = "Greater" -> "LT"
+            [] NatCmp(sub2, H) = "Equal"   -> "UNDEF")
 
 (* The subtractions above are native `u32 - u32`; with overflow checks on  *)
 (* they panic on underflow.  They never underflow: *)
